@@ -159,6 +159,21 @@ def run_pc(case, drv):
     if got_dir != exp_dir or got_und != exp_und:
         return fail(f"CPDAG for ground truth {edges}: directed {sorted(got_dir)} undirected {sorted(got_und)}; "
                     f"Markov class gives directed {sorted(exp_dir)} undirected {sorted(exp_und)}", **tags)
+    # the public static entry point, called directly with the skeleton and separating sets returned above, gives the same pattern and
+    # leaves its arguments alone
+    try:
+        sk_before = {frozenset(e) for e in skel.edges()}
+        seps_before = {k: set(v) for k, v in seps.items()}
+        pd2 = PC.skeleton_to_pdag(skel, seps)
+    except Exception as e:
+        return fail(f"PC.skeleton_to_pdag raised {type(e).__name__}: {e}", **tags)
+    d2 = {(idx[u], idx[v]) for u, v in pd2.directed_edges}
+    u2 = {tuple(sorted((idx[u], idx[v]))) for u, v in pd2.undirected_edges}
+    if d2 != exp_dir or u2 != exp_und:
+        return fail(f"PC.skeleton_to_pdag(skeleton, separating sets) for ground truth {edges}: directed {sorted(d2)} undirected {sorted(u2)}; "
+                    f"Markov class gives directed {sorted(exp_dir)} undirected {sorted(exp_und)}", **tags)
+    if {frozenset(e) for e in skel.edges()} != sk_before or {k: set(v) for k, v in seps.items()} != seps_before:
+        return fail("PC.skeleton_to_pdag modified the skeleton or the separating sets it was given", **tags)
     de = [[idx[u], idx[v]] for u, v in dag.edges()]
     if set(dag.nodes()) != set(names):
         return fail(f"DAG result has nodes {sorted(dag.nodes())}", **tags)
